@@ -13,7 +13,9 @@ bulk OUT, transactions of other devices with their ACKs, SOF; status ZLP left un
 abandoned after SETUP or after the un-ACKed status ZLP and followed by other (ACK-carrying) transfers; other
 complete control transfers (GET_DESCRIPTOR ...: many ACKs, none may change a register); bus reset (SE0 310-360
 cycles) between transfers, right after a SETUP, and after an un-ACKed status ZLP; SE0 shorter than 2.5 us (no
-reset); VBUS drop (`session_end`).
+reset); VBUS drop (`session_end`); bus reset whose SE0 starts 0-3 cycles after the host's status ACK (inside the
+commit window: the value may be adopted, the reset then clears it).  Device configuration per session as in C07: 12 MHz
+or 60 MHz full-speed timing tables (both tiers), endpoint-0 packet size {64, 8, 16, 32}, optional skiplist.
 
 Monitor: every cycle `active_address`, `active_config`, `reset_detected` -> list of change events / reset strobes.
 Oracle (independent, from USB 2.0 9.4.6 / 9.4.7 / 9.1.1 and the statement): a change of a register is legal only
@@ -34,8 +36,10 @@ except two history patterns that were found as defects of the original tree (fin
                                   register is the one of that abandoned request, written with wValue of the latest SETUP
                                   (or the completed request did not change its own register for the same reason)
 
-Not judged: protocol answers (C07), reset timing between 2.5 us and 5 us of SE0 (not generated; C19), SET_ADDRESS
-with wLength != 0 or non-standard recipients, behaviour after the first contradiction on a device.
+Not judged: protocol answers (C07), reset timing between 2.5 us and 5 us of SE0 (not generated; C19), SET_ADDRESS /
+SET_CONFIGURATION with wLength != 0 or a recipient other than the device (USB 2.0 9.4.6/9.4.7 call the behaviour
+undefined and the statement does not decide it: not generated), a reset strobe coinciding with the commit cycle (SE0
+and a host packet cannot be on the wire together), behaviour after the first contradiction on a device.
 """
 from rv.sim import Bench
 from rv.usb2host import UTMIHost
